@@ -107,6 +107,22 @@ CLAIMED = {
             'and 13 explicit-default variants.',
             'Trusted: Lean kernel, standard axioms, extract.py, harness. The composition theorem is thin where the model is compositional by construction; the weight is on the tie.',
             'DESIGN.md §5 C13'),
+    'C07': ('Lean 4 proof: validator rejection by case analysis, body of a range = bodyRows between the a-th measure start and the closing stage (unfolding the structured exporter), interval partition lemma by induction on a strictly increasing index; every pair a <= b by correspondence',
+            'Theorems C07_reject_negative_start / _end_beyond / _end_before_start (ValueError, not clamped), C07_valid_pair, C07_start_stage, C07_stop_stage, C07_body (for every valid pair the '
+            'body rows are exactly the rows of the stages from the a-th measure start to the barline opening measure b+1, or the end for b = M, each row computed as in the full export: '
+            'C07_rows_unmodified), C07_partition (with a strictly increasing measure index every non-start stage after the first start lies in exactly one single-measure interval), '
+            'C07_iterate. Tied on generated **kern documents x every pair a <= b and out-of-range pairs: data lines of the range vs data lines of the full export within the measure '
+            'boundaries computed from the abstract document, bounding barlines, partition, iteration, and every export vs the model.',
+            'Trusted: Lean kernel, standard axioms, extract.py, harness. That the measure index built by the importer is strictly increasing is a hypothesis of C07_partition, validated by '
+            'correspondence (model = implementation on every explored document). Open finding F15-signature-mismatch (uneven signatures make a valid range raise) is outside the proved part.',
+            'DESIGN.md §5 C07'),
+    'C19': ('Lean 4 proof by induction over the fragment list (pairs consecutive from 0, one per fragment, last = measure count of the import of the joined text), fold lemma runRows_append, C07_body for the addressed stages; every cut set by correspondence',
+            'Theorems C19_indexes (for every cell parser, fragment list and separator: the document is the import of the joined text, there is one pair per fragment, pairs are consecutive '
+            'starting at 0, the last `to` is the measure count), pairsFrom_spec, C19_empty, runRows_append, C19_pair_addresses_stages (via C07_body). Tied on generated scores cut at every '
+            'set of barline lines into 1..6 fragments with both separators: same document, pairs, and the data lines each pair exports vs the fragment\'s own data lines (grid oracle); '
+            'concat vs the model.',
+            'Trusted: Lean kernel, standard axioms, extract.py, harness. "The measure index of a prefix is a prefix of the measure index" is established by correspondence, not as a theorem.',
+            'DESIGN.md §5 C19'),
 }
 
 NOT_YET = {}
